@@ -713,13 +713,11 @@ func TestCheck(t *testing.T) {
 	rec.Corpus(t)
 	// histories average ~5.5 bodies
 	rec.Rapid(t, "history", rec.N(450, 3600), func(rt *rapid.T) {
-		n := rapid.IntRange(1, 10).Draw(rt, "len")
 		var c HistoryCase
+		c.Bodies = rapid.SliceOfN(rapid.Custom(func(rt *rapid.T) Body { return genBody(rt, "b", rec.Thorough()) }), 1, 10).Draw(rt, "bodies")
 		classes := map[string]bool{}
 		nt := false
-		for i := 0; i < n; i++ {
-			b := genBody(rt, fmt.Sprintf("b%d", i), rec.Thorough())
-			c.Bodies = append(c.Bodies, b)
+		for _, b := range c.Bodies {
 			raw, err := b.bytes()
 			if err != nil {
 				rt.Fatalf("generator produced an unbuildable body: %v", err)
